@@ -374,7 +374,7 @@ def spec_to_code(ctx):
             stats['fail_14'] += t['err'] == 14
     nwalks = len(walks)
     # (b) simulated behaviours of the wide model (depth 8, all shapes incl. LEFT$/MID$/DEF FN)
-    nb = ctx.pick(250, 4000)
+    nb = ctx.pick(250, 3000)
     r = ctx.tlc('StringSpace_MC', 'StringSpace_MC_sim.cfg', workers=1, simulate='num=%d' % nb, tag='simulate',
                 extra=['-depth', '9', '-seed', str(ctx.seed + 1)])
     if not r['ok']:
@@ -518,7 +518,7 @@ def code_to_spec(ctx):
     for a in ARRS:
         d.s.ex('DIM %s(%s)' % (a[0], a[1]))
     ae_setup = int(d.s.ev(AE)[1])
-    nhist = ctx.pick(70, 500)
+    nhist = ctx.pick(70, 400)
     ops = 0
     plan = []
     for h in range(nhist):
